@@ -22,6 +22,10 @@
  *    (ro-file-changed), the last Hclose succeeds (ro-close-failed).
  * B  the same file opened READ-ONLY through every interface (Hopen+Vstart+ANstart+GRstart, SDstart DFACC_READ) and a random
  *    program of 20-60 calls over reads, inquiries and EVERY mutating entry point of H/V/VS/SD/GR/AN; same oracles, no T lines.
+ *    "Second handle" scenarios (reopen_v/vs/ri/sds): attach r, keep it, attach the same vgroup / Vdata w (also: two r then w;
+ *    two r, one detached, then w; r, detach, w), select the same image / data set twice: the w attach is refused, every mutator
+ *    through every id of the object fails, and what the session reads about the object afterwards (names, classes, members,
+ *    fields, counts, attributes, chunk/compression info, first data value) is what it read before (ro-view-changed:<family>).
  * C  RDWR open + close with no edits through H, through SD and through GR: every object reads back identical
  *    (rw-noop-content); STAT rw_noop_bytes_same/_diff says whether the bytes are identical too.
  */
@@ -332,6 +336,142 @@ static void part_a(const char *path, int k)
     (void)k;
 }
 
+/* ---- part B, "the object is already open": a second handle on an object must not be a way round the refusal.
+ * Vattach / VSattach have a separate branch for an object that is attached already (nattach > 0), GRselect for an image that
+ * is selected already (ri_ptr->access++); SDselect has no state, its ids are computed.  On a read-only file: attach r, keep it,
+ * attach the same object w (variants: two r attaches, then w; two r attaches, one detached, then w; r, detach, w) must be
+ * refused, every mutator through ANY id of the object must fail, and what the session reads about the object afterwards is
+ * what it read before (key ro-view-changed:<family>). */
+typedef struct { char s[4096]; } view_t;
+static void view_vg(int32 vg, view_t *v)
+{
+    char nm[1024] = "", cl[1024] = ""; uint16 nl = 0, kl = 0; int32 tg[64], rf[64];
+    int32 n = Vntagrefs(vg); int m = n > 64 ? 64 : (int)n;
+    if (Vgetnamelen(vg, &nl) == SUCCEED && nl < sizeof nm) Vgetname(vg, nm);
+    if (Vgetclassnamelen(vg, &kl) == SUCCEED && kl < sizeof cl) Vgetclass(vg, cl);
+    int o = snprintf(v->s, sizeof v->s, "name='%s' class='%s' n=%d nattrs=%d:", nm, cl, (int)n, (int)Vnattrs(vg));
+    if (m > 0 && Vgettagrefs(vg, tg, rf, m) == m) for (int i = 0; i < m && o < (int)sizeof v->s - 16; i++) o += snprintf(v->s + o, sizeof v->s - (size_t)o, " %d/%d", (int)tg[i], (int)rf[i]);
+}
+static void view_vs(int32 vs, view_t *v)
+{
+    static char fields[VSFIELDMAX * (FIELDNAMELENMAX + 1) + 8]; char nm[VSNAMELENMAX + 1] = "", cl[VSNAMELENMAX + 1] = "";
+    int32 ne = -1, il = -1, sz = -1; fields[0] = 0;
+    VSgetname(vs, nm); VSgetclass(vs, cl); int32 nf = VSgetfields(vs, fields); VSinquire(vs, &ne, &il, NULL, &sz, NULL);
+    unsigned char rec[64]; memset(rec, 0, sizeof rec); int32 esz = VSsizeof(vs, "a"); long rd = -9;
+    if (esz > 0 && esz <= (int32)sizeof rec && VSsetfields(vs, "a") != FAIL && VSseek(vs, 0) != FAIL) rd = (long)VSread(vs, rec, 1, FULL_INTERLACE);
+    snprintf(v->s, sizeof v->s, "name='%s' class='%s' elts=%d/%d il=%d/%d nfields=%d/%d size=%d nattrs=%d read=%ld:%02x%02x%02x%02x fields=%.3000s", nm, cl, (int)VSelts(vs), (int)ne, (int)VSgetinterlace(vs), (int)il,
+             (int)VFnfields(vs), (int)nf, (int)sz, (int)VSfnattrs(vs, _HDF_VDATA), rd, rec[0], rec[1], rec[2], rec[3], fields);
+}
+static void view_ri(int32 ri, view_t *v)
+{
+    char nm[H4_MAX_GR_NAME + 1] = ""; int32 nc = -1, nt = -1, il = -1, dm[2] = {-1, -1}, na = -1, fl = -1; comp_coder_t ct = COMP_CODE_INVALID; comp_info ci; HDF_CHUNK_DEF cd;
+    memset(&ci, 0, sizeof ci); memset(&cd, 0, sizeof cd);
+    GRgetiminfo(ri, nm, &nc, &nt, &il, dm, &na); GRgetchunkinfo(ri, &cd, &fl); GRgetcompinfo(ri, &ct, &ci);
+    static unsigned char px[256]; memset(px, 0, sizeof px); int32 st[2] = {0, 0}, one[2] = {1, 1}; long rd = -9;
+    if (nc > 0 && nc <= 8 && dm[0] > 0 && dm[1] > 0) rd = (long)GRreadimage(ri, st, NULL, one, px);
+    snprintf(v->s, sizeof v->s, "name='%s' ncomp=%d nt=%d il=%d dims=%dx%d nattrs=%d chunkflags=%d comp=%d read=%ld:%02x%02x%02x%02x", nm, (int)nc, (int)nt, (int)il, (int)dm[0], (int)dm[1], (int)na, (int)fl, (int)ct, rd, px[0], px[1], px[2], px[3]);
+}
+static void view_sds(int32 s_, view_t *v)
+{
+    char nm[H4_MAX_NC_NAME + 1] = "", dn[H4_MAX_NC_NAME + 1] = "", l[64] = "", u[64] = "", f[64] = "", c[64] = ""; int32 rk = -1, dm[H4_MAX_VAR_DIMS], nt = -1, na = -1, fl = -1, dsz = -1, dnt = -1, dna = -1;
+    comp_coder_t ct = COMP_CODE_INVALID; comp_info ci; HDF_CHUNK_DEF cd; unsigned char fill[16]; memset(fill, 0, sizeof fill); memset(&ci, 0, sizeof ci); memset(&cd, 0, sizeof cd); dm[0] = -1;
+    SDgetinfo(s_, nm, &rk, dm, &nt, &na); SDgetchunkinfo(s_, &cd, &fl); SDgetcompinfo(s_, &ct, &ci);
+    int hasfill = SDgetfillvalue(s_, fill) != FAIL; SDgetdatastrs(s_, l, u, f, c, 63);
+    int32 dim = rk > 0 ? SDgetdimid(s_, 0) : FAIL; if (dim != FAIL) SDdiminfo(dim, dn, &dsz, &dnt, &dna);
+    static unsigned char el[64]; memset(el, 0, sizeof el); long rd = -9;
+    if (rk > 0 && rk <= 4 && dm[0] > 0) { int32 st[4] = {0, 0, 0, 0}, ct1[4] = {1, 1, 1, 1}; rd = (long)SDreaddata(s_, st, NULL, ct1, el); }
+    snprintf(v->s, sizeof v->s, "name='%s' rank=%d dim0=%d nt=%d nattrs=%d chunkflags=%d comp=%d fill=%d:%02x%02x%02x%02x%02x%02x%02x%02x strs='%s','%s','%s','%s' dimname='%s' dimsize=%d dimnt=%d dimnattrs=%d ext=%d read=%ld:%02x%02x%02x%02x",
+             nm, (int)rk, (int)dm[0], (int)nt, (int)na, (int)fl, (int)ct, hasfill, fill[0], fill[1], fill[2], fill[3], fill[4], fill[5], fill[6], fill[7], l, u, f, c, dn, (int)dsz, (int)dnt, (int)dna, (int)SDgetexternalinfo(s_, 0, NULL, NULL, NULL), rd, el[0], el[1], el[2], el[3]);
+}
+static void view_cmp(const char *fam, const char *what, const view_t *a, const view_t *b)
+{
+    if (ro_trace > 0) fprintf(stderr, "  view %s {%s}\n", fam, a->s);
+    if (strcmp(a->s, b->s) == 0) return;
+    char key[64]; snprintf(key, sizeof key, "ro-view-changed:%s", fam);
+    hk_fail(key, "%s: refused (or accepted) mutators on a read-only file changed what the session reads: before {%.700s} after {%.700s}", what, a->s, b->s);
+}
+static void reopen_v(int32 fid, int32 vgref, int32 vs_any, int32 *ibuf)
+{
+    if (vgref <= 0) return;
+    int variant = (int)hk_range(0, 3), n = 0; int32 ids[4]; view_t v0, v1;
+    int32 a = (int32)CALL("Vattach", 0, Vattach(fid, vgref, "r")); if (a == FAIL) return;
+    view_vg(a, &v0); ids[n++] = a;
+    if (variant == 1 || variant == 2) { int32 b = (int32)CALL("Vattach", 0, Vattach(fid, vgref, "r")); if (b != FAIL) ids[n++] = b; }
+    if (variant == 2 && n == 2) { CALL("Vdetach", 0, Vdetach(ids[0])); ids[0] = ids[1]; n = 1; }
+    if (variant == 3) { CALL("Vdetach", 0, Vdetach(ids[0])); n = 0; }
+    int32 w = (int32)CALL("Vattach(w,again)", 1, Vattach(fid, vgref, "w")); if (w != FAIL) ids[n++] = w;
+    if (n == 0) { a = (int32)CALL("Vattach", 0, Vattach(fid, vgref, "r")); if (a == FAIL) return; ids[n++] = a; }
+    int32 mt = 0, mr = 0; int have = Vgettagref(ids[0], 0, &mt, &mr) != FAIL;
+    for (int i = 0; i < n; i++) {
+        CALL("Vsetname", 1, Vsetname(ids[i], "renamed2")); CALL("Vsetclass", 1, Vsetclass(ids[i], "recls2"));
+        CALL("Vaddtagref", 1, Vaddtagref(ids[i], 1001, 1)); if (vs_any != FAIL) CALL("Vinsert", 1, Vinsert(ids[i], vs_any));
+        if (have) CALL("Vdeletetagref", 1, Vdeletetagref(ids[i], mt, mr));
+        CALL("Vsetattr", 1, Vsetattr(ids[i], "att2", DFNT_INT32, 1, ibuf));
+    }
+    view_vg(ids[0], &v1); view_cmp("V", "vgroup attached more than once", &v0, &v1);
+    for (int i = n - 1; i >= 0; i--) CALL("Vdetach", 0, Vdetach(ids[i]));
+    hk_stat("reopen_v", 1);
+}
+static void reopen_vs(int32 fid, int32 vsref, uint8 *buf, int32 *ibuf)
+{
+    if (vsref <= 0) return;
+    int variant = (int)hk_range(0, 3), n = 0; int32 ids[4]; view_t v0, v1;
+    int32 a = (int32)CALL("VSattach", 0, VSattach(fid, vsref, "r")); if (a == FAIL) return;
+    view_vs(a, &v0); ids[n++] = a;
+    if (variant == 1 || variant == 2) { int32 b = (int32)CALL("VSattach", 0, VSattach(fid, vsref, "r")); if (b != FAIL) ids[n++] = b; }
+    if (variant == 2 && n == 2) { CALL("VSdetach", 0, VSdetach(ids[0])); ids[0] = ids[1]; n = 1; }
+    if (variant == 3) { CALL("VSdetach", 0, VSdetach(ids[0])); n = 0; }
+    int32 w = (int32)CALL("VSattach(w,again)", 1, VSattach(fid, vsref, "w")); if (w != FAIL) ids[n++] = w;
+    if (n == 0) { a = (int32)CALL("VSattach", 0, VSattach(fid, vsref, "r")); if (a == FAIL) return; ids[n++] = a; }
+    for (int i = 0; i < n; i++) {
+        CALL("VSsetname", 1, VSsetname(ids[i], "renamed2")); CALL("VSsetclass", 1, VSsetclass(ids[i], "recls2"));
+        CALL("VSsetattr", 1, VSsetattr(ids[i], _HDF_VDATA, "att2", DFNT_INT32, 1, ibuf));
+        CALL("VSsetinterlace", 1, VSsetinterlace(ids[i], NO_INTERLACE));
+        VSsetfields(ids[i], "a"); CALL("VSwrite", 1, VSwrite(ids[i], buf, 1, FULL_INTERLACE));
+    }
+    view_vs(ids[0], &v1); view_cmp("VS", "vdata attached more than once", &v0, &v1);
+    for (int i = n - 1; i >= 0; i--) CALL("VSdetach", 0, VSdetach(ids[i]));
+    hk_stat("reopen_vs", 1);
+}
+static void reopen_ri(int32 gr, uint8 *buf, int32 *ibuf)
+{
+    int32 nimg = 0, na = 0; if (gr == FAIL || GRfileinfo(gr, &nimg, &na) == FAIL || nimg <= 0) return;
+    int32 idx = (int32)hk_range(0, nimg - 1), ids[2]; int n = 0; view_t v0, v1;
+    for (int i = 0; i < 2; i++) { int32 r1 = (int32)CALL("GRselect", 0, GRselect(gr, idx)); if (r1 != FAIL) ids[n++] = r1; }
+    if (n == 0) return;
+    view_ri(ids[0], &v0);
+    for (int i = 0; i < n; i++) {
+        int32 st2[2] = {0, 0}, one[2] = {1, 1}; comp_info ci; HDF_CHUNK_DEF c; memset(&ci, 0, sizeof ci); ci.deflate.level = 1; memset(&c, 0, sizeof c); c.chunk_lengths[0] = 2; c.chunk_lengths[1] = 2;
+        CALL("GRsetattr", 1, GRsetattr(ids[i], "att2", DFNT_INT32, 1, ibuf)); CALL("GRwriteimage", 1, GRwriteimage(ids[i], st2, NULL, one, buf));
+        CALL("GRsetcompress", 1, GRsetcompress(ids[i], COMP_CODE_DEFLATE, &ci)); CALL("GRsetchunk", 1, GRsetchunk(ids[i], c, HDF_CHUNK));
+        CALL("GRsetexternalfile", 1, GRsetexternalfile(ids[i], sdext, 0));
+        int32 pal = (int32)CALL("GRgetlutid", 0, GRgetlutid(ids[i], 0)); if (pal != FAIL) CALL("GRwritelut", 1, GRwritelut(pal, 3, DFNT_UINT8, MFGR_INTERLACE_PIXEL, 256, buf));
+    }
+    view_ri(ids[0], &v1); view_cmp("GR", "image selected more than once", &v0, &v1);
+    for (int i = n - 1; i >= 0; i--) CALL("GRendaccess", 0, GRendaccess(ids[i]));
+    hk_stat("reopen_ri", 1);
+}
+static void reopen_sds(int32 sd, int32 nsds, int32 *ibuf)
+{
+    if (sd == FAIL || nsds <= 0) return;
+    int32 idx = (int32)hk_range(0, nsds - 1), ids[2]; int n = 0; view_t v0, v1;
+    for (int i = 0; i < 2; i++) { int32 s1 = (int32)CALL("SDselect", 0, SDselect(sd, idx)); if (s1 != FAIL) ids[n++] = s1; }
+    if (n == 0) return;
+    view_sds(ids[0], &v0);
+    for (int i = 0; i < n; i++) {
+        comp_info ci; HDF_CHUNK_DEF c; memset(&ci, 0, sizeof ci); ci.deflate.level = 1; memset(&c, 0, sizeof c); for (int d = 0; d < 4; d++) c.chunk_lengths[d] = 1;
+        int32 rk = 0, dm[H4_MAX_VAR_DIMS], nt = 0, na = 0; char nm[H4_MAX_NC_NAME + 1];
+        CALL("SDsetattr", 1, SDsetattr(ids[i], "att2", DFNT_INT32, 1, ibuf)); CALL("SDsetfillvalue", 1, SDsetfillvalue(ids[i], ibuf + 2));
+        CALL("SDsetdatastrs", 1, SDsetdatastrs(ids[i], "l2", "u2", "f2", "c2")); CALL("SDsetrange", 1, SDsetrange(ids[i], ibuf, ibuf + 1));
+        CALL("SDsetcompress", 1, SDsetcompress(ids[i], COMP_CODE_DEFLATE, &ci)); CALL("SDsetchunk", 1, SDsetchunk(ids[i], c, HDF_CHUNK));
+        if (SDgetinfo(ids[i], nm, &rk, dm, &nt, &na) != FAIL && rk > 0 && rk <= 4) { int32 st[4] = {0, 0, 0, 0}, ct[4] = {1, 1, 1, 1}; CALL("SDwritedata", 1, SDwritedata(ids[i], st, NULL, ct, ibuf));
+            int32 dim = (int32)CALL("SDgetdimid", 0, SDgetdimid(ids[i], 0)); if (dim != FAIL) CALL("SDsetdimname", 1, SDsetdimname(dim, "newdim2")); }
+    }
+    view_sds(ids[0], &v1); view_cmp("SD", "data set selected more than once", &v0, &v1);
+    for (int i = n - 1; i >= 0; i--) CALL("SDendaccess", 0, SDendaccess(ids[i]));
+    hk_stat("reopen_sds", 1);
+}
+
 /* ------------------------------------------------------------------------------------------------ part B */
 static void part_b(const char *path)
 {
@@ -358,7 +498,7 @@ static void part_b(const char *path)
     for (int i = 0; i < nops; i++) {
         uint16 t, r; pick_tr(&t, &r, 0);
         int32 d2[2] = {3, 4}, st2[2] = {0, 0};
-        switch ((int)hk_range(0, 69)) {
+        switch ((int)hk_range(0, 75)) {
             /* ---- H */
             case 0: CALL("Hputelement", 1, Hputelement(fid, t, r, buf, 10)); break;
             case 1: { int32 a = (int32)CALL("Hstartwrite", 1, Hstartwrite(fid, t, r, 10)); if (a != FAIL) Hendaccess(a); } break;
@@ -397,7 +537,9 @@ static void part_b(const char *path)
             case 33: CALL("VSsetname", 1, VSsetname(vs_r, "renamed")); break;
             case 34: CALL("VSsetclass", 1, VSsetclass(vs_r, "recls")); break;
             case 35: CALL("VSsetattr", 1, VSsetattr(vs_r, _HDF_VDATA, "att", DFNT_INT32, 1, ibuf)); break;
-            case 36: CALL("VSfdefine", 1, VSfdefine(vs_r, "zz", DFNT_INT32, 1)); break;
+            /* VSfdefine only enters a name in the handle's table of user-defined symbols (vs->usym); that table is never stored,
+               only a later VSsetfields + VSwrite would use it: not a mutation of the Vdata */
+            case 36: CALL("VSfdefine", 0, VSfdefine(vs_r, "zz", DFNT_INT32, 1)); break;
             case 37: { if (vs_r != FAIL) { CALL("VSdetach", 0, VSdetach(vs_r)); vs_r = FAIL; }
                        long rr = CALL("VSdelete", 1, VSdelete(fid, vsref > 0 ? vsref : 1));
                        if (vsref > 0) { vs_r = (int32)CALL("VSattach", 0, VSattach(fid, vsref, "r")); if (rr == FAIL && vs_r == FAIL) hk_fail("ro-vsdelete-unchecked", "VSdelete on a read-only file returned FAIL but removed the Vdata from the file's table (VSattach now fails)"); } } break;
@@ -412,7 +554,8 @@ static void part_b(const char *path)
             case 45: CALL("SDsetfillvalue", 1, SDsetfillvalue(sds, ibuf)); break;
             case 46: { comp_info ci; memset(&ci, 0, sizeof ci); ci.deflate.level = 1; CALL("SDsetcompress", 1, SDsetcompress(hk_chance(50) ? sds : newsds, COMP_CODE_DEFLATE, &ci)); } break;
             case 47: { HDF_CHUNK_DEF c; memset(&c, 0, sizeof c); c.chunk_lengths[0] = 2; c.chunk_lengths[1] = 2; CALL("SDsetchunk", 1, SDsetchunk(hk_chance(50) ? sds : newsds, c, HDF_CHUNK)); } break;
-            case 48: CALL("SDsetexternalfile", 1, SDsetexternalfile(hk_chance(50) ? sds : newsds, sdext, 0)); break;
+            /* documented: "if the data set is already external the call does nothing and succeeds": a mutation only otherwise */
+            case 48: { int32 s_ = hk_chance(50) ? sds : newsds; int already = SDgetexternalinfo(s_, 0, NULL, NULL, NULL) > 0; CALL("SDsetexternalfile", !already, SDsetexternalfile(s_, sdext, 0)); } break;
             case 49: CALL("SDsetdatastrs", 1, SDsetdatastrs(sds, "l", "u", "f", "c")); break;
             case 50: CALL("SDsetcal", 1, SDsetcal(sds, 1.0, 0.0, 0.0, 0.0, DFNT_INT16)); break;
             case 51: CALL("SDsetrange", 1, SDsetrange(sds, ibuf, ibuf + 1)); break;
@@ -435,7 +578,12 @@ static void part_b(const char *path)
             case 66: CALL("ANwriteann", 1, ANwriteann(hk_chance(60) ? ann : newann, "changed", 7)); break;
             case 67: { int32 l = (int32)CALL("ANannlen", 0, ANannlen(ann)); if (l >= 0 && l < 1000) CALL("ANreadann", 0, ANreadann(ann, (char *)buf, l + 1)); } break;
             case 68: { if (ann != FAIL) CALL("ANendaccess", 0, ANendaccess(ann)); ann = an != FAIL ? (int32)CALL("ANselect", 0, ANselect(an, 0, hk_chance(50) ? AN_DATA_LABEL : AN_FILE_DESC)) : FAIL; } break;
-            default: { int32 nl, nd, ol, od; CALL("ANfileinfo", 0, ANfileinfo(an, &nl, &nd, &ol, &od)); } break;
+            case 69: { int32 nl, nd, ol, od; CALL("ANfileinfo", 0, ANfileinfo(an, &nl, &nd, &ol, &od)); } break;
+            /* ---- a second handle on an object that is open already */
+            case 70: case 71: reopen_v(fid, vgref, vs_r, ibuf); break;
+            case 72: case 73: reopen_vs(fid, vsref, buf, ibuf); break;
+            case 74: reopen_ri(gr, buf, ibuf); break;
+            default: reopen_sds(sd, nsds, ibuf); break;
         }
     }
     /* release everything (the detach/end calls of objects a mutating call handed out are part of the test) */
